@@ -71,6 +71,7 @@ def run(repo, rep):
     rule_pairing(repo, rep)
     rule_round5(repo, rep)
     rule_no_tensor_rename(repo, rep)
+    rule_rewrites_of_unplaced_operators(repo, rep)
     rule_overwritten_options(repo, rep)
     rule_quant_record_kept(repo, rep)
     rule_pass_order(repo, rep)
@@ -912,3 +913,55 @@ def rule_quant_record_kept(repo, rep):
               f"`{str(norm(drops[0].test))}` does not look at {missing}: a record that carries only min / max is dropped, and the tensor is written without quantisation "
               "(demonstrated: float RELU model whose input carries min -1, max 2: subgraph input, output and the CPU operator's operands are written with no quantisation record)")
     rep.floor("C11-l", 1)
+
+
+def rule_rewrites_of_unplaced_operators(repo, rep, rule="C11-m"):
+    """(m) passes run with rewrite_unsupported=True are applied to operators whatever their placement. A rewrite in such a pass may re-wire or
+    re-attribute operators only after it has established that the result is supported: every mutation (set_input_tensor, set_output_tensor,
+    attrs.update / attrs[...] =) is preceded by a support test whose failing branch returns without it."""
+    rep.clause(rule, "a rewrite that is applied to operators regardless of their placement (rewrite_unsupported=True) decides whether the merged operator is supported before it re-wires anything: "
+               "an operator that ends up on the CPU is written with its own operands, options and neighbours")
+    go = repo.mod("tflite_graph_optimiser")
+    tg = go.func("tflite_optimise_graph")
+    names = []
+    for c in calls_in(tg, "rewrite_graph_pre_order"):
+        kw = {k.arg: k.value for k in c.keywords}
+        ru = kw.get("rewrite_unsupported")
+        if not (isinstance(ru, ast.Constant) and ru.value is True):
+            continue
+        for a in c.args:
+            if isinstance(a, ast.List):
+                names += [e.id for e in a.elts if isinstance(e, ast.Name)]
+    if len(names) < 2:
+        raise AnalysisError(f"passes with rewrite_unsupported=True: {names}")
+    MUT = ("set_input_tensor", "set_output_tensor", "add_input_tensor")
+    for nm in names:
+        fn = go.func(nm)
+        muts = [c for c in walk_no_nested(fn) if isinstance(c, ast.Call) and isinstance(c.func, ast.Attribute) and (c.func.attr in MUT or (c.func.attr == "update" and str(norm(c.func.value)).endswith(".attrs")))]
+        muts += [st for st in walk_no_nested(fn) if isinstance(st, ast.Assign) and isinstance(st.targets[0], ast.Subscript) and str(norm(st.targets[0].value)).endswith(".attrs")]
+        # a trial copy (`x = <op>.clone(...)`) is not part of the graph: mutations of it are free
+        trial = {st.targets[0].id for st in walk_no_nested(fn) if isinstance(st, ast.Assign) and isinstance(st.targets[0], ast.Name) and isinstance(st.value, ast.Call) and isinstance(st.value.func, ast.Attribute)
+                 and st.value.func.attr == "clone"}
+
+        def receiver(x):
+            e = x.func.value if isinstance(x, ast.Call) else x.targets[0].value
+            while isinstance(e, (ast.Attribute, ast.Subscript)):
+                e = e.value
+            return e.id if isinstance(e, ast.Name) else None
+
+        muts = [x for x in muts if receiver(x) not in trial]
+        # support tests: `if not <...>is_operator_supported(...)` (possibly through a local) with a returning body
+        sup_locals = {st.targets[0].id for st in walk_no_nested(fn) if isinstance(st, ast.Assign) and isinstance(st.targets[0], ast.Name) and "is_operator_supported(" in str(norm(st.value))}
+        guards = []
+        for i_ in walk_no_nested(fn):
+            if isinstance(i_, ast.If) and i_.body and isinstance(i_.body[-1], ast.Return):
+                t = str(norm(i_.test))
+                if ("is_operator_supported(" in t or any(t in (f"not {l_}", f"{l_} is False", f"{l_} == False") for l_ in sup_locals)) and t.startswith("not "):
+                    guards.append(i_)
+        first_guard = min((g.lineno for g in guards), default=None)
+        early = [x for x in muts if first_guard is None or x.lineno < first_guard]
+        rep.check(not early, rule, f"ethosu/vela/tflite_graph_optimiser.py:{nm}", f"every re-wiring of `{nm}` follows a support test that returns on failure ({len(muts)} mutations)",
+                  (f"`{str(norm(early[0]))[:70]}` is done " + ("before" if first_guard else "without") + " any `if not ...is_operator_supported(...): return`: the operators are merged first and the verdict only sets "
+                   "run_on_npu, so a merged operator that is rejected stays merged on the CPU (demonstrated: SPACE_TO_BATCH_ND -> CONV_2D stride_h 4 -> BATCH_TO_SPACE_ND is written as a single CPU CONV_2D "
+                   "[1,8,8,4] -> [1,2,8,4]; DEQUANTIZE -> EXP -> QUANTIZE on uint8 aborts in convert_ops_to_lut)") if early else "")
+    rep.floor(rule, 2)
